@@ -63,5 +63,11 @@ func parseGroupString(s string) (group, error) {
 			return g, errInvalidGroupOption{Option: c}
 		}
 	}
+	if g.Name == "" {
+		// An empty group name is indistinguishable from "not grouped" in a
+		// key and would collide with the unnamed value of the same type.
+		return g, newErrInvalidInput(
+			fmt.Sprintf("invalid value group %q: the group name cannot be empty", s), nil)
+	}
 	return g, nil
 }
